@@ -17,7 +17,7 @@ REQUIRED = ["contract.GoalRegion.is_reached", "contract.PlanningProblem.goal_rea
             "state.KSState", "state.MBState", "state.CustomState", "pm.vx<0", "value.int", "value.numpy",
             "on-boundary.time", "on-boundary.velocity", "on-boundary.position", "expected.True", "expected.False",
             "multi-goal-state", "requery-after.goal.translate_rotate", "requery-after.lanelet-goal",
-            "requery-after.replace-goal-state-in-place", "pm.axis-aligned.vx<0,vy==0"]
+            "requery-after.replace-goal-state-in-place", "pm.axis-aligned.vx<0,vy==0", "road-moved-goal-asked-again"]
 ASSUMPTIONS = ["orientation verdicts within 1e-9 of an interval end and circle-boundary positions are not judged",
                "states carry every attribute the goal constrains (otherwise the documented ValueError applies)"]
 SHARDS = {"quick": 4, "thorough": 16}
@@ -55,6 +55,7 @@ def gen_goal_state(G, rng, ctx, fields):
             lls, _ = lattice.gen_lanelets(rng, nmax=3, base_id=50)
             kw["position"] = ShapeGroup([la.polygon for la in lls])
             info["lanelets"] = [la.lanelet_id for la in lls]
+            info["lanelet_objects"] = lls
     if "orientation" in fields:
         ln = rng.choice([0.0, 0.1, 0.5, 1.0, math.pi - 1e-6, math.pi, math.pi + 1e-6, 3.5, 5.0, TWO_PI - 1e-3])
         a = rng.uniform(-TWO_PI, TWO_PI - ln)
@@ -205,12 +206,14 @@ def run(ctx):
         if ng > 1:
             ctx.feature("multi-goal-state")
         gss, lanelets = [], {}
+        goal_lanelet_objects = []
         for j in range(ng):
             fields = subsets[(i + j * 3) % len(subsets)]
             gs, info = gen_goal_state(G, rng, ctx, fields)
             gss.append(gs)
             if "lanelets" in info:
                 lanelets[j] = info["lanelets"]
+                goal_lanelet_objects.extend(info["lanelet_objects"])
         try:
             goal = GoalRegion(gss, lanelets or None)
         except Exception as e:  # noqa
@@ -266,6 +269,31 @@ def run(ctx):
                             pass
             except Exception as e:  # noqa
                 ctx.violation("C08/requery-after/%s/raises-%s" % (op, type(e).__name__), repr(e)[:300], {"goal": gfp})
+        # the goal region is an object of its own: moving the ROAD (the lanelets whose polygons a lanelet goal was built
+        # from) does not move the goal; the same states get the same verdicts as before
+        if i % 2 == 1 and goal_lanelet_objects and states:
+            import numpy as np
+            verdicts = []
+            for s in states:
+                try:
+                    verdicts.append(bool(goal.is_reached(s)))
+                except Exception:  # noqa
+                    verdicts.append(None)
+            tr, an = np.array([rng.uniform(30, 60), rng.uniform(-60, -30)]), rng.choice([0.4, -1.3, 3.0])
+            for la in goal_lanelet_objects:
+                la.translate_rotate(tr, an)
+            ctx.feature("road-moved-goal-asked-again")
+            for s, v0 in zip(states, verdicts):
+                ctx.evaluation()
+                try:
+                    v1 = bool(goal.is_reached(s))
+                except Exception:  # noqa
+                    v1 = None
+                if v0 is not None and v1 != v0:
+                    ctx.violation("C08/GoalRegion.is_reached/verdict-changed-after-moving-the-road",
+                                  "the lanelets a lanelet goal refers to were moved (translate_rotate on the lanelets); "
+                                  "the same state was %s before and is %s now" % (v0, v1), gm._wit(goal, s))
+                    break
         # goal_reached on trajectories of one state class (same attribute set required)
         for cls in (STATE_CLASSES[i % len(STATE_CLASSES)], "PMState"):
             sl = [gen_state(G, rng, ctx, gss, cls) for _ in range(rng.randint(1, 5))]
